@@ -109,12 +109,12 @@ def report(acc, part, direction, script, read, verdict):
     cur, nsw = active_suite(script, idx if idx is not None else len(script) - 1)
     cls = P.framing_class(cur[1], cur[2]) if cur else "clear"
     z = ":zlib" if cur and cur[3] != "none" else ""
-    key = "%s:%s%s:%s%s" % (clause, cls, z, env_of(read), ":after-key-switch" if nsw > 1 else "")
+    dims = {"framing": cls, "zlib": bool(z), "read": env_of(read), "after-key-switch": nsw > 1}
     if len(script) > 60:      # core.jsonable truncates long lists: store the generator instead
         case = {"dir": direction, "gen": "seq200", "suite": list(script[0][1:4]), "read": read}
     else:
         case = {"dir": direction, "script": [list(it) for it in script], "read": read}
-    acc.violation(key, {"part": part, "info": info, "case": case}, case)
+    P.sig_violation(acc, clause, dims, {"part": part, "info": info, "case": case}, case)
 
 
 def run_case(direction, script, read, stream=None, sent=None):
@@ -291,6 +291,9 @@ def main(tier):
          "cryptography and zlib are trusted"])
     items = items_for(tier)
     ck.merge(core.pmap(items, run_item))
+    P.regroup(ck, {"framing": {"ctr", "cbc", "3des", "gcm", "ctr+etm", "cbc+etm", "3des+etm"},
+                   "zlib": {True, False}, "read": {"whole", "bytewise", "split", "timeout", "timeout+bytewise"},
+                   "after-key-switch": {True, False}})
     ck.extra["bound"] = {
         "suites": len(P.all_suites()), "directions": 2,
         "sequence_alphabet": list(S6), "max_sequence_len": 2 if tier == "quick" else 3,
